@@ -124,7 +124,7 @@ BDoReadOnly(i) ==
 \* StopAsync: while Starting (observing) the service fails without cleanup; otherwise
 \* LeaveOnStopping publishes LEAVING, then the instance is removed unless it is to be kept
 BStopReq(i) ==
-    /\ L[i].phase \in {"run", "observing"} /\ Basic(i) /\ bud.stop > 0 /\ EnvOK /\ Calm
+    /\ L[i].phase \in {"run", "observing"} /\ Basic(i) /\ ~L[i].stall /\ bud.stop > 0 /\ EnvOK /\ Calm
     /\ SetL(i, [L[i] EXCEPT !.phase = IF L[i].phase = "observing" THEN "off" ELSE "stopreq",
                             !.obsAt = -1, !.nextHb = -1])
     /\ bud' = [bud EXCEPT !.stop = @ - 1] /\ actor' = 0
@@ -158,14 +158,16 @@ Env == \/ \E i \in Inst : Start(i, cfg[i])
        \/ Tick \/ Wipe
        \/ \E i \in Inst, b \in BOOLEAN : SetKV(i, b)
        \/ \E i \in Inst : Crash(i)
+       \/ (bud.stall > 0 /\ \E i \in Inst : Stall(i))
+       \/ \E i \in Inst : Unstall(i)
        \/ (bud.crash > 0 /\ \E i \in Inst : \E F \in MidFiles(i) : CrashMid(i, F))
        \/ (bud.crash > 0 /\ \E i \in Inst : L[i].phase = "init" /\ Basic(i) /\ \E T \in BRegChoices(i) : BRegisterCrashT(i, T))
 
-Next == (\E i \in Inst : LStep(i)) \/ Env
+Next == (\E i \in Inst : ~L[i].stall /\ LStep(i)) \/ Env
 
 Spec == Init /\ [][Next]_vars
 \* fairness: the lifecyclers' own actions, the clock and the return of calls; never the environment's choices
-FairSpec == Spec /\ WF_vars(\E i \in Inst : LStep(i)) /\ WF_vars(Tick) /\ WF_vars(\E i \in Inst : Return(i))
+FairSpec == Spec /\ WF_vars(\E i \in Inst : ~L[i].stall /\ LStep(i)) /\ WF_vars(Tick) /\ WF_vars(\E i \in Inst : Return(i))
 
 (***************************************************************************)
 (*                         C08 - what TLC decides                          *)
